@@ -337,22 +337,25 @@ def raggedRows : List Nat → List Nat → List (List Nat)
   | _, [] => []
   | d, n :: ns => d.take n :: raggedRows (d.drop n) ns
 
-/-- `count_reference_length(symbol, lengths)`: `mask = OR_i (symbol == consuming[i])`, `np.sum(mask * lengths, axis=-1)`;
+/-- `mask = OR_i (symbol == consuming[i])` as 0/1 -/
+def maskOf (codes : List Nat) (op : Nat) : Nat := if codes.any (· == op) then 1 else 0
+
+/-- `mask * lengths` on the flat data -/
+def rowProd (codes : List Nat) (ops lens : List Nat) : List Nat :=
+  ((ops.map (maskOf codes)).zip lens).map (fun p => p.1 * p.2)
+
+/-- `count_reference_length(symbol, lengths)`: `np.sum(mask * lengths, axis=-1)` over the ragged rows;
 `codes` = the op codes of `as_encoded_array("MDN=X", CigarOpEncoding)` (extracted from the running code) -/
 def countReferenceLength (codes : List Nat) (flatOps flatLens rowLens : List Nat) : List Nat :=
-  let mask := flatOps.map (fun op => if codes.any (· == op) then 1 else 0)
-  let prod := (mask.zip flatLens).map (fun p => p.1 * p.2)
-  (raggedRows prod rowLens).map List.sum
+  (raggedRows (rowProd codes flatOps flatLens) rowLens).map List.sum
 
-/-- `alignment_to_interval(alignment)`: column-wise Bed6 construction from the BamEntry columns -/
+/-- `alignment_to_interval(alignment)` / `BamIntervalBuffer`: column-wise Bed6 construction from the BamEntry columns -/
 def alignmentToInterval (codes : List Nat) (ds : List DRec) : List Interval :=
-  let flatOps := (ds.map (·.cigOp)).flatten
-  let flatLens := (ds.map (·.cigLen)).flatten
-  let rowLens := ds.map (·.cigOp.length)
-  let len := countReferenceLength codes flatOps flatLens rowLens
+  let len := countReferenceLength codes (ds.map DRec.cigOp).flatten (ds.map DRec.cigLen).flatten
+    (ds.map (fun d => d.cigOp.length))
   let strand := ds.map (fun d => (d.flag &&& 16) != 0)        -- np.where(flag & 16, "-", "+")
-  (ds.zip (len.zip strand)).map (fun (d, l, m) =>
-    { chrom := d.chrom, start := d.pos, stop := d.pos + (l : Nat), name := d.name, score := d.mapq, minus := m })
+  (ds.zip (len.zip strand)).map (fun (x : DRec × Nat × Bool) =>
+    { chrom := x.1.chrom, start := x.1.pos, stop := x.1.pos + (x.2.1 : Nat), name := x.1.name, score := x.1.mapq, minus := x.2.2 })
 
 /-! probe used to tie the fixed offsets to the running code (see Gen/C16.lean): one record with
 `l_read_name = 1`, everything else zero, `pad` zero bytes of payload; byte `o` incremented -/
